@@ -62,6 +62,48 @@ claim("C18", EQ + "; effect analysis of add()",
       "add() ≡ guard-over-all-children-raises, else StingyConfigurator(*(children+[p]), id=self.id); add() writes nothing "
       "pre-existing.", BASE_NOTE, "§4/C18")
 
+ARR_NOTE = BASE_NOTE + "numpy array idioms at the anchors; no overflow. "
+claim("C01", EQ + "; sibling agreement of the two TheoryPy builders; who-may-construct rule",
+      "Python side of the bridge only: statement provenance per flattened node (index, bounds, child indices, bias=-value, sign) per "
+      "sign case, builder agreement, column re-attachment and the [b|A] split are proven for all inputs. Whether the compiled encoder's "
+      "inequalities hold iff the model is true is NOT claimed.",
+      BASE_NOTE + "puan_rspy is compiled: its statement semantics are trusted as documented.", "§4/C01")
+claim("C10", "equivalence-adequacy analysis of every de-duplication key (E7) + " + EQ,
+      "errors() ≡ four labelled checks (cycle wiring, two definition-uniqueness checks, duplicate edges) with complete dependency "
+      "relation; every key fed to set()/Counter and the __eq__ of objects de-duplicated inside flatten() must separate different "
+      "definitions. Four known-finding constructs of one genuine defect (lossy de-duplication).",
+      BASE_NOTE + "Key classification table (tuple of fields injective; hash / string concatenation not).", "§4/C10")
+claim("C11", EQ, "Each reduction kernel (A_min, reducable_rows, reducable_columns_approx, reduce_columns, reduce_rows, the fixpoint loop, "
+      "reduce) is proven equal to its formula for all inputs; formula ⇒ solution-set preservation by three one-line lemmas.",
+      ARR_NOTE + "Loop termination not decided.", "§4/C11")
+claim("C12", EQ, "column_bounds, A_max, A_min, row_bounds, n_row_combinations and tighten_column_bounds are proven equal to "
+      "implied-bound arithmetic for all inputs (residual, floor candidate, sign masks, neutral elements, max/min, write-back only if tighter).",
+      ARR_NOTE, "§4/C12")
+claim("C13", EQ + "; literal-dispatch exhaustiveness; batch self-recursion rule",
+      "Partial claim: dispatch, batch recursion, closed forms of first/last/min/max and the Python side of 'shadow' (keep-last, "
+      "gather/scatter by inverse permutations, sign/zero preservation). Dominance of shadow weights and density of prio/rank are NOT claimed.",
+      ARR_NOTE + "pr.py_optimized_bit_allocation_64 is compiled.", "§4/C13")
+claim("C14", EQ + "; cross-site constant / producer-consumer agreement rules",
+      "Partial claim: the conventions necessary for the lexicographic order (row order vs keep-last, user default 0, default fill -1, "
+      "tag -2 strictly below, complement tagged, ASPACE, asserted polyhedron). The numeric ranking itself is NOT claimed.",
+      BASE_NOTE, "§4/C14")
+claim("C15", EQ + "; index-space (FULL vs A-columns) pairing rules; must-pass-through (eager solver call inside try)",
+      "Both bridges: solver gets the asserted FULL polyhedron, objectives live on A-columns with default 0, solutions are zipped with "
+      "A.variables of the same polyhedron, virtual-variable filters agree, None → {}, only_leafs, solver exceptions → InfeasibleError. "
+      "Optimality is NOT claimed.", BASE_NOTE + "Solver honours its contract.", "§4/C15")
+claim("C16", "serialisation writer/reader agreement analysis (keys, id guard, omission defaults, registry exhaustiveness, state coverage) + " + EQ,
+      "For the 13 classes reachable from the two registries: writer and reader agree on keys, ids are emitted only when explicit, "
+      "omission predicates equal reader/constructor defaults, every emitted type resolves in both registries, every state component "
+      "is written or re-derived. One known finding (compound's own bounds).", BASE_NOTE, "§4/C16")
+claim("C17", "serialisation positional/coverage agreement + " + EQ,
+      "dumps(self); no custom pickling hooks; list[i] ↔ __new__ parameter i; list covers every attached attribute; finalize carries "
+      "variables/index.", BASE_NOTE + "pickle/gzip/base64 inverse-ness is a library fact.", "§4/C17")
+claim("C19", "axis/quantifier typing (E5) of the 2-D cores + self-recursion / singleton rules + " + EQ,
+      "For the three classifiers × three ndim branches: quantifier prefix (∃row / ∃point / ∀row over A·x<b or >=b), own-function "
+      "recursion for stacks, singleton wrap and index-0 rule.", ARR_NOTE, "§4/C19")
+claim("C20", EQ, "construct, variable_indices (case split on dtype: a partition), from_list/to_list, A/b/to_linalg are proven equal to the "
+      "statement for all inputs.", ARR_NOTE, "§4/C20")
+
 
 def build():
     from sa import props
